@@ -42,7 +42,11 @@ Three streams through the real `trackpy.refine.least_squares`:
 """
 import copy
 import math
+import os
+import pickle
 import random
+import signal
+import traceback
 import warnings
 from fractions import Fraction
 
@@ -81,6 +85,9 @@ ASSUMPTIONS = [
     "masks inside the image; `near` starts <= 1.2 px from the truth, signal start 0.9 x truth, size "
     "exact -- the regime of the accuracy stream; the < 0.1 px demand is made only for default "
     "param_mode / bounds / solver options; `far` starts (3-4 px) may fail or succeed",
+    "history: every case runs in a forked child of the worker process, so the first call of a case sees "
+    "the module state as it was before any polluting call and polluting calls never reach the cases of "
+    "the other streams (all recorded inputs replay stand-alone)",
     "history: exact equality of the repeated call is demanded (the code path is deterministic: "
     "SLSQP, numpy); polluting calls are not judged except for escaping exceptions in configurations "
     "where only a fit can fail (solver options / tolerances / max_iter / max_rms_dev)",
@@ -1303,7 +1310,7 @@ def judge_by_label(res, ls, scene, call, table, out, exc, sig, who="refine_least
                           "%s: cluster %r (%s) cannot have been fitted, but label(s) %s carry cost %r"
                           % (who, key, "start outside the image" if kind == "out" else
                              ("non-finite start parameter" if kind == "nan" else "global fit with an impossible member"),
-                             [lab_in[list(table["tag"].values).index(i)] for i in c], costs),
+                             ", ".join(lab_in[list(table["tag"].values).index(i)] for i in c), costs),
                           signature=dict(sig, what="failure-not-marked", cause=kind))
             return None
         for i in c:
@@ -1327,7 +1334,7 @@ def judge_by_label(res, ls, scene, call, table, out, exc, sig, who="refine_least
                 res.violation("property-violation",
                               "%s: noise-free %s frame, default settings, start <= 1.2 px off: the fit of label(s) %s "
                               "failed (cost NaN)" % (who, scene["fitfun"],
-                                                     [lab_in[list(table["tag"].values).index(i)] for i in c]),
+                                                     ", ".join(lab_in[list(table["tag"].values).index(i)] for i in c)),
                               signature=dict(sig, what="not-recovered", fit_function=scene["fitfun"], how="failed"))
                 return None
             continue
@@ -1450,6 +1457,65 @@ def first_difference(a, b):
     return None
 
 
+def run_forked(fn, ctx, inp, res):
+    """run fn(ctx, inp, res) in a forked child of this worker and merge what it reports.
+
+    The history stream makes calls that are MEANT to leave state behind if the code keeps any.  In a
+    child process (i) every case starts from the state the worker had before any polluting call, so
+    the recorded input replays stand-alone, and (ii) nothing leaks into the cases of the other
+    streams that this worker runs afterwards (their violations would not replay)."""
+    try:
+        r, w = os.pipe()
+        pid = os.fork()
+    except OSError:
+        res.stat("history_not_isolated")
+        return fn(ctx, inp, res)
+    if pid == 0:
+        code = 1
+        try:
+            os.close(r)
+            signal.setitimer(signal.ITIMER_REAL, 0)
+            sub = Result()
+            try:
+                fn(ctx, inp, sub)
+            except BaseException:
+                sub.viol.append(dict(kind="harness-error", message=traceback.format_exc()[-3000:],
+                                     implementation_output=None, model_output=None, broken=None, signature={}))
+            payload = pickle.dumps(dict(nontrivial=bool(sub.nontrivial), stats=dict(sub.stats), sample=sub.sample,
+                                        viol=sub.viol, borderline=bool(sub.borderline)))
+            with os.fdopen(w, "wb") as f:
+                f.write(payload)
+            code = 0
+        finally:
+            os._exit(code)
+    os.close(w)
+    data = b""
+    try:
+        with os.fdopen(r, "rb") as f:
+            data = f.read()
+    except BaseException:          # the per-case alarm of the runner: do not leave the child behind
+        try:
+            os.kill(pid, signal.SIGKILL)
+        except OSError:
+            pass
+        raise
+    finally:
+        try:
+            os.waitpid(pid, 0)
+        except OSError:
+            pass
+    if not data:
+        res.violation("harness-error", "the child process of a history case died without a report: %r" % (inp,))
+        return
+    got = pickle.loads(data)
+    res.nontrivial = got["nontrivial"]
+    res.borderline = got["borderline"]
+    res.sample = got["sample"]
+    res.stats.update(got["stats"])
+    res.viol.extend(got["viol"])
+    res.stat("history_isolated_in_child_process")
+
+
 def run_history(ctx, inp, res):
     from trackpy.refine import least_squares as ls
     scene, other, call = inp["scene"], inp["other"], inp["call"]
@@ -1500,22 +1566,24 @@ def run_history(ctx, inp, res):
         return
     res.stat("history_repeat_cases")
     res.stat("history_polluters_completed", completed)
-    info2 = judge_by_label(res, ls, scene, call, t, out2, exc2, dict(sig, when="repeated"),
-                           who="repeated call (after %s)" % ",".join(inp["polluters"]))
-    diff = None if out2 is None else first_difference(out1, out2)
-    if diff is not None and not res.viol:
+    said = ", ".join("%s=%r" % kv_ for kv_ in call.items()) or "defaults"
+    if exc2 is not None:
+        diff = "the repeated call raised %s: %s" % (type(exc2).__name__, exc2)
+    else:
+        diff = first_difference(out1, out2)
+    if diff is not None:
         res.violation("property-violation",
                       "the same refine_leastsq call (%s) gives a different result after other calls in the same "
-                      "process (%s): %s" % (", ".join("%s=%r" % kv_ for kv_ in call.items()) or "defaults",
-                                            ",".join(inp["polluters"]), diff),
-                      impl=dict(first=out1.to_dict("list"), repeated=out2.to_dict("list")),
+                      "process (%s): %s" % (said, ",".join(inp["polluters"]), diff),
+                      impl=dict(first=out1.to_dict("list"), repeated=None if out2 is None else out2.to_dict("list")),
                       signature=dict(sig, what="history-dependent-result"))
-    if info2 is None:
         return
-    res.stat("history_repeat_fitted", info2["nfit"])
-    res.nontrivial = info2["nfit"] >= 1 and completed >= 1
-    res.sample = dict(stream="history", call=call, polluters=inp["polluters"], fitted=info2["nfit"],
-                      failed=info2["nfail"], multi=scene["multi"])
+    # out2 is identical to out1, which satisfied the by-label oracle
+    res.stat("history_repeat_identical")
+    res.stat("history_repeat_fitted", info1["nfit"])
+    res.nontrivial = info1["nfit"] >= 1 and completed >= 1
+    res.sample = dict(stream="history", call=call, polluters=inp["polluters"], fitted=info1["nfit"],
+                      failed=info1["nfail"], multi=scene["multi"])
 
 
 def run_case(ctx, inp):
@@ -1530,7 +1598,7 @@ def run_case(ctx, inp):
     elif s == "frames":
         run_frames(ctx, inp, res)
     elif s == "history":
-        run_history(ctx, inp, res)
+        run_forked(run_history, ctx, inp, res)
     else:
         res.violation("harness-error", "unknown stream %r" % s)
     return res
